@@ -447,10 +447,18 @@ async fn run(case: &Case, ctx: &mut Ctx) -> Option<Violation> {
                         m.keys[k].held[j] = None;
                     }
                     if let Some(e) = m.keys[k].held[layer].as_mut() {
-                        e.maybe_gone = false;
+                        // a hit in a slower layer may be followed by an automatic promotion, and whether a
+                        // promotion copies or MOVES the entry is not something the property fixes: afterwards
+                        // the slower layer may have given the entry up and every faster layer may hold it
+                        e.maybe_gone = layer > 0;
                     }
                     if layer > 0 {
                         ctx.reached("served_by_lower_layer");
+                        if let Some(src) = m.keys[k].held[layer].clone() {
+                            for j in 0..layer {
+                                m.keys[k].held[j] = Some(LE { maybe_gone: true, ..src.clone() });
+                            }
+                        }
                     }
                 }
                 Ok(())
@@ -618,7 +626,8 @@ async fn run(case: &Case, ctx: &mut Ctx) -> Option<Violation> {
                             // promoting an edited file copies the edited bytes
                             m.keys[k].taint[to] = src_tainted;
                             if let Some(e) = m.keys[k].held[from].as_mut() {
-                                e.maybe_gone = false;
+                                // copy or move: the source layer may have given the entry up
+                                e.maybe_gone = true;
                             }
                         } else if !m.keys[k].since_remove.is_empty() || m.keys[k].tainted() {
                             // an older copy the model does not track was promoted: learn what the target holds now
